@@ -583,6 +583,11 @@ func run(args []string) error {
 			doBtc(s[:len(s)/2]+"l"+s[len(s)/2:], "bad-char")
 		}
 	}
+	// ---- the HTTP API entry points that take an address text
+	apiRes, err := runAPI(r, o, hist, thorough, &later)
+	if err != nil {
+		return err
+	}
 	// third presentation of every input, after all the others
 	for _, f := range later {
 		f()
@@ -594,10 +599,12 @@ func run(args []string) error {
 	o.Def("cases_dec", "list Z * Z * list Z", dec)
 	o.Def("cases_addr", "list Z * list Z * outcome address * list Z", addr)
 	o.Def("cases_addrb", "list Z * list Z * outcome address", addrb)
+	caseJSON["api"] = apiRes.js
+	o.Def("cases_api", "Z * list (list Z * list Z) * Z", apiRes.cases)
 	o.Def("cases_btc", "list Z * list Z * outcome address * list Z", btc)
 	o.Def("cases_btcb", "list Z * list Z * outcome address", btcb)
 	o.Def("cases_addre", "address * list Z * list Z * list Z", addre)
-	o.Side["rule"] = fmt.Sprintf("exhaustive: every byte string of length <= %d through Encode, every text of <= %d symbols over alphabet+{0,O,I,l,space,0x80,é} through Decode; random byte strings (leading-zero runs, all-zero, all-0xff, 58^k±1, 256^k, up to 300 bytes) and texts (alphabet with leading '1' runs, up to 400 chars, one bad symbol inserted, only '1's); addresses: valid, one-bit checksum/key damage, version != 0 with matching checksum, 22-28 bytes, an extra leading '1', bad character, checksum taken from the digest's tail; bitcoin addresses likewise; every input is presented twice in a row and once more at the end of the run, an answer that changed is a further case; a case is non-trivial unless it is the empty input; distinct by input", encK, decK)
+	o.Side["rule"] = fmt.Sprintf("exhaustive: every byte string of length <= %d through Encode, every text of <= %d symbols over alphabet+{0,O,I,l,space,0x80,é} through Decode; random byte strings (leading-zero runs, all-zero, all-0xff, 58^k±1, 256^k, up to 300 bytes) and texts (alphabet with leading '1' runs, up to 400 chars, one bad symbol inserted, only '1's); addresses: valid, one-bit checksum/key damage, version != 0 with matching checksum, 22-28 bytes, an extra leading '1', bad character, checksum taken from the digest's tail; bitcoin addresses likewise; HTTP API (real mux, stub gateway): address/verify, balance, outputs, v1/v2 transactions, address_uxouts, v2 transaction to/change_address/addresses with a catalogue of canonical, white-space padded (ASCII and Unicode), look-alike, case-changed, truncated, bad checksum, bad version, bitcoin-form, multi-address texts; every input is presented twice in a row and once more at the end of the run, an answer that changed is a further case; a case is non-trivial unless it is the empty input; distinct by input", encK, decK)
 	o.Side["distribution"] = hist.Sorted()
 	o.Side["samples"] = samples
 	o.Side["cases"] = caseJSON
